@@ -357,6 +357,11 @@ impl FramebufferType<'_> {
                 // TODO we can create a struct for this and implement
                 //  DynSizedStruct for it to leverage the already existing
                 //  functionality
+                // The number of colors is a 16-bit field.
+                assert!(
+                    palette.len() <= u16::MAX as usize,
+                    "the palette must not have more than 65535 colors"
+                );
                 let num_colors = palette.len() as u16;
                 data.extend(&num_colors.to_ne_bytes());
                 for color in *palette {
